@@ -425,12 +425,14 @@ def int_clip(x, val_min, val_max):
 def wrap(x, signed, n_word):
 
     m = (1 << n_word)
-    if n_word >= _n_word_max:
+    x = np.asarray(x)
+    if n_word >= _n_word_max or x.dtype == object:
+        # python integers (an object array is also what holds values beyond 64 bits for a shorter word)
         dtype = object
-        x = int_array(x).astype(dtype) & (m - 1)
+        x = np.array(list(map(int, x.flatten())), dtype=dtype).reshape(x.shape) & (m - 1)
     else:
         dtype = int
-        x = np.array(x).astype(dtype) & (m - 1) 
+        x = x.astype(dtype) & (m - 1) 
 
     x = np.asarray(x).astype(dtype)
 
